@@ -259,7 +259,7 @@ func c03Query(r *rand.Rand, words []string) string {
 
 func engineIndexScan(ctx *Ctx) {
 	r := vlib.NewRand(ctx.Seed, ctx.Shard, "indexscan")
-	nHist := ctx.N(640, 6400)
+	nHist := ctx.N(640, 32000)
 	for h := 0; h < nHist; h++ {
 		sp := dbSpecFor(r, h+ctx.Shard)
 		sp.Unicode = h%3 == 0
